@@ -84,6 +84,14 @@ def plan(tier, ctx):
                                                 ],
                                      unwind=66, object_bits=10, witness=(n == 65536 and av == b), timeout=600, mem_gb=16, replay=False),
                                 core=False, family="STOREDLEN", weight=n / 1000.0))
+    # ---------------------------------------------------------------- engine B on the igzip ICF bit emitters (lead)
+    shapes = [(40, 15, 100), (64, 15, 150), (48, 15, 64), (33, 15, 90), (100, 9, 120), (24, 15, 300), (17, 12, 40), (8, 15, 64), (1, 15, 16)]
+    seeds = range(1, 9) if quick else range(1, 41)
+    for var in ("04", "06"):
+        cases = [[sd, nt, ml, sd % 8, (sd * 3) % 7, ol] for sd in seeds for (nt, ml, ol) in shapes]
+        for i in range(0, len(cases), 18):
+            qs.append(Query("x86/icf_%s/c%d" % (var, i // 18), "harness.C10.icf_x86:icf_query", dict(variant=var, cases=cases[i:i + 18]),
+                            core=(i == 0), family="x86/encode_deflate_icf_" + var, weight=30))
     return Plan("C10", "model_checking", qs,
                 functions_encoded=["isal_deflate_stateless", "isal_deflate_int_stateless", "write_stream_header_stateless",
                                    "write_deflate_header_stateless", "write_stored_block", "write_type0_header", "write_trailer",
